@@ -90,7 +90,7 @@ fn nontrivial_rule(prop: &str) -> &'static str
         "C06" => "profile C06; non-trivial = at least one revoke applied and one reaction delivered; distinct = distinct observed trace",
         "C07" => "profile C07; non-trivial = a ref-count reached zero or a reactor was despawned; distinct = distinct observed trace",
         "C08" => "profiles C08 and C08F (App frames); non-trivial = at least one removal/despawn event raised; distinct = distinct observed trace",
-        "C09" => "profile C09; non-trivial = tree depth >= 2; distinct = distinct observed trace",
+        "C09" => "profiles C09 and C09P (polled reactions at tree boundaries); non-trivial = tree depth >= 2; distinct = distinct observed trace",
         "C10" => "profile C10 (histories) plus shuttle thread schedules; non-trivial = a signal's last clone dropped; distinct = distinct observed trace / schedule outcome",
         "C11" => "profile C11; non-trivial = 2+ trees on one world with an aborted or postponed delivery; distinct = distinct observed trace",
         "C12" => "profile C12; non-trivial = 2+ sender/target FIFO pairs checked with a postponed delivery; distinct = distinct observed trace",
@@ -110,7 +110,7 @@ fn profiles_for(prop: &str) -> Vec<&'static str>
     match prop
     {
         "C01" => vec!["C01"], "C02" => vec!["C02"], "C03" => vec!["C03"], "C04" => vec!["C04"], "C05" => vec!["C05"], "C06" => vec!["C06"],
-        "C07" => vec!["C07"], "C08" => vec!["C08", "C08F"], "C09" => vec!["C09"], "C10" => vec!["C10"], "C11" => vec!["C11"], "C12" => vec!["C12"],
+        "C07" => vec!["C07"], "C08" => vec!["C08", "C08F"], "C09" => vec!["C09", "C09P"], "C10" => vec!["C10"], "C11" => vec!["C11"], "C12" => vec!["C12"],
         "C13" => vec!["C13"], "C14" => vec!["C14"], "C15" => vec!["C15"], "C16" => vec!["C16"], "C17" => vec!["C17"], _ => vec!["C18"],
     }
 }
@@ -245,7 +245,7 @@ fn cmd_check(a: Args) -> i32
     let prop = a.prop.as_str();
     let thorough = a.tier == "thorough";
     let profiles: Vec<&'static str> = match &a.profile { Some(p) => vec![Box::leak(p.clone().into_boxed_str())], None => profiles_for(prop) };
-    let default_runs: u64 = if thorough { 4_000_000 } else { 150_000 };
+    let default_runs: u64 = if thorough { 4_000_000 } else { 300_000 };
     let runs = a.runs.unwrap_or(default_runs) / profiles.len() as u64;
     let mut total = Agg::default();
     for p in &profiles
